@@ -3,15 +3,15 @@ CONSTANTS
   IntA = 2
   IntB = 2
   Skew = 0
-  MaxNow = 6
-  KdfUsesTime = FALSE
+  MaxNow = 4
+  KdfUsesTime = TRUE
   Coordinated = FALSE
   TearDown = FALSE
-  ReHandshakes = 0
+  ReHandshakes = 1
   IgnoreReHandshakeWhileOpen = FALSE
-  SplitTicks = FALSE
+  SplitTicks = TRUE
   NegativeElapsedIsDue = FALSE
-INVARIANTS C39_SameKeyWhileOpen
+INVARIANTS Reach_HandshakeInsideTick
 VIEW View
 CONSTRAINT Bound
 CHECK_DEADLOCK FALSE
